@@ -786,3 +786,161 @@ Example append_rpc_commits_ex :
      [ENew; EMsg (MReq (AppendReq [(9, true); (8, false)]%N true true true usage1));
       EMsg (MSig true)])) = [1; 2; 3; 9]%N.
 Proof. split; [done|by vm_compute]. Qed.
+
+(** ** Listing: a range served with a verifying proof is the stored range *)
+
+Lemma mroot_fuel_indep f : ∀ g l, length l ≤ f → length l ≤ g → mroot_fuel f l = mroot_fuel g l.
+Proof.
+  induction f as [|f IH]; intros g l Hf Hg.
+  - destruct l; simpl in *; [by destruct g|lia].
+  - destruct g as [|g]; [destruct l; simpl in *; [done|lia]|].
+    destruct l as [|x [|y l']]; [done|done|].
+    remember (x :: y :: l') as l eqn:El.
+    assert (2 ≤ length l) as Hlen by (subst l; simpl; lia).
+    pose proof (split_point_bounds (length l) Hlen) as Hk.
+    assert (∀ h, mroot_fuel (S h) l =
+            DNode (mroot_fuel h (take (split_point (length l)) l))
+                  (mroot_fuel h (drop (split_point (length l)) l))) as Hu by (subst l; done).
+    rewrite !Hu. f_equal; apply IH; rewrite ?take_length, ?drop_length; lia.
+Qed.
+
+Lemma mroot_unfold l :
+  2 ≤ length l →
+  mroot l = DNode (mroot (take (split_point (length l)) l)) (mroot (drop (split_point (length l)) l)).
+Proof.
+  intros Hlen. pose proof (split_point_bounds (length l) Hlen) as Hk.
+  destruct l as [|x [|y l']]; simpl in Hlen; [lia|lia|].
+  remember (x :: y :: l') as l eqn:El.
+  unfold mroot at 1. destruct (length l) as [|n] eqn:En; [lia|].
+  assert (mroot_fuel (S n) l =
+          DNode (mroot_fuel n (take (split_point (length l)) l))
+                (mroot_fuel n (drop (split_point (length l)) l))) as -> by (subst l; done).
+  rewrite En. unfold mroot.
+  f_equal; apply mroot_fuel_indep; rewrite ?take_length, ?drop_length; lia.
+Qed.
+
+(** a range of [l1 ++ l2] is its part in [l1] followed by its part in [l2] *)
+Lemma range_split (l1 l2 : list N) off len :
+  let k := length l1 in let hi := off + len in
+  off + len ≤ length l1 + length l2 →
+  take len (drop off (l1 ++ l2)) =
+  take (hi `min` k - off `min` k) (drop (off `min` k) l1) ++
+  take (hi `max` k - off `max` k) (drop (off `max` k - k) l2).
+Proof.
+  intros k hi Hle. subst k hi.
+  destruct (decide (length l1 ≤ off)) as [Hge|Hlt].
+  - rewrite drop_app_ge by done.
+    rewrite !Nat.min_r, !Nat.max_l by lia. rewrite Nat.sub_diag. simpl.
+    f_equal. lia.
+  - destruct (decide (off + len ≤ length l1)) as [Hin|Hout].
+    + rewrite drop_app_le by lia.
+      rewrite !Nat.min_l, !Nat.max_r by lia. rewrite Nat.sub_diag.
+      simpl. rewrite app_nil_r.
+      rewrite take_app_le by (rewrite drop_length; lia). f_equal. lia.
+    + rewrite drop_app_le by lia.
+      rewrite (Nat.min_r (off + len)), (Nat.min_l off), (Nat.max_l (off + len)), (Nat.max_r off) by lia.
+      rewrite Nat.sub_diag. simpl.
+      rewrite take_app_ge by (rewrite drop_length; lia).
+      rewrite drop_length. rewrite (take_ge (drop off l1)) by (rewrite drop_length; lia).
+      f_equal. f_equal. lia.
+Qed.
+
+Lemma rebuild_sound f : ∀ l off len rs proof rs' p',
+  1 ≤ length l → length l ≤ f → off + len ≤ length l →
+  rebuild f (length l) off len rs proof = Some (mroot l, rs', p') →
+  rs = take len (drop off l) ++ rs'.
+Proof.
+  induction f as [|f IH]; intros l off len rs proof rs' p' Hl1 Hlf Hr E; [simpl in *; lia|].
+  cbn [rebuild] in E. case_decide as Hlen.
+  { subst len. rewrite take_0. destruct proof; [done|]. by injection E as _ -> _. }
+  case_decide as Hn.
+  { destruct rs as [|x rs0]; [done|]. case_decide; [|done].
+    injection E as Ed -> _. destruct l as [|y [|? ?]]; simpl in *; try lia.
+    injection Ed as ->. assert (off = 0) as -> by lia. assert (len = 1) as -> by lia. done. }
+  set (k := split_point (length l)) in *.
+  pose proof (split_point_bounds (length l) ltac:(lia)) as Hk. fold k in Hk.
+  destruct (rebuild f k _ _ rs proof) as [[[dl rs1] p1]|] eqn:E1; [|done].
+  destruct (rebuild f (length l - k) _ _ rs1 p1) as [[[dr rs2] p2]|] eqn:E2; [|done].
+  injection E as Ed -> ->. rewrite mroot_unfold in Ed by lia. fold k in Ed.
+  injection Ed as -> ->.
+  assert (length (take k l) = k) as Hlk by (rewrite take_length; lia).
+  assert (length (drop k l) = length l - k) as Hld by (by rewrite drop_length).
+  rewrite <-Hlk in E1 at 1. apply IH in E1; [|lia|lia|lia].
+  rewrite <-Hld in E2 at 1. apply IH in E2; [|lia|lia|lia].
+  rewrite E1, E2. rewrite app_assoc. f_equal.
+  pose proof (range_split (take k l) (drop k l) off len) as Hs. cbv zeta in Hs.
+  rewrite take_drop, Hlk in Hs. rewrite Hs by (rewrite Hld; lia). done.
+Qed.
+
+Theorem listing_sound roots off len rs proof :
+  verify_range (mroot roots) (length roots) off len rs proof = true →
+  rs = take len (drop off roots).
+Proof.
+  unfold verify_range. intros H. apply andb_true_iff in H as [Hr H].
+  apply bool_decide_eq_true in Hr as (Hlen & Hle & _).
+  destruct (rebuild _ _ _ _ rs proof) as [[[d [|? ?]] [|? ?]]|] eqn:E; try done.
+  apply bool_decide_eq_true in H as ->.
+  apply rebuild_sound in E; [|lia|lia|lia]. by rewrite app_nil_r in E.
+Qed.
+
+Lemma rebuild_complete f : ∀ l off len rs' p',
+  1 ≤ length l → length l ≤ f → off + len ≤ length l →
+  rebuild f (length l) off len (take len (drop off l) ++ rs') (build_range_proof f l off len ++ p')
+  = Some (mroot l, rs', p').
+Proof.
+  induction f as [|f IH]; intros l off len rs' p' Hl1 Hlf Hr; [lia|].
+  cbn [rebuild build_range_proof]. case_decide as Hlen.
+  { subst len. by rewrite take_0. }
+  case_decide as Hn.
+  { destruct l as [|y [|? ?]]; simpl in *; try lia.
+    assert (off = 0) as -> by lia. assert (len = 1) as -> by lia. simpl. done. }
+  set (k := split_point (length l)) in *.
+  pose proof (split_point_bounds (length l) ltac:(lia)) as Hk. fold k in Hk.
+  assert (length (take k l) = k) as Hlk by (rewrite take_length; lia).
+  assert (length (drop k l) = length l - k) as Hld by (by rewrite drop_length).
+  pose proof (range_split (take k l) (drop k l) off len) as Hs. cbv zeta in Hs.
+  rewrite take_drop, Hlk in Hs. rewrite Hs by (rewrite Hld; lia).
+  rewrite <-!app_assoc.
+  rewrite <-Hlk at 1. rewrite IH by lia.
+  rewrite <-Hld at 1. rewrite IH by lia.
+  rewrite (mroot_unfold l) by lia. done.
+Qed.
+
+(** the honest host's proof verifies (so [listing_sound] is not vacuous, for any contract) *)
+Theorem listing_complete roots off len :
+  0 < len → off + len ≤ length roots →
+  verify_range (mroot roots) (length roots) off len (take len (drop off roots))
+    (build_range_proof (length roots) roots off len) = true.
+Proof.
+  intros Hlen Hle. unfold verify_range. apply andb_true_iff. split.
+  - apply bool_decide_eq_true. rewrite take_length, drop_length. lia.
+  - pose proof (rebuild_complete (length roots) roots off len [] [] ltac:(lia) ltac:(lia) Hle) as E.
+    rewrite !app_nil_r in E. rewrite E. by apply bool_decide_eq_true.
+Qed.
+
+Example listing_sound_ex :
+  verify_range (mroot [1; 2; 3; 4; 5; 6; 7]%N) 7 2 3 [3; 4; 5]%N
+    [DNode (DLeaf 1) (DLeaf 2); DLeaf 6; DLeaf 7]%N = true ∧
+  verify_range (mroot [1; 2; 3; 4; 5; 6; 7]%N) 7 2 3 [4; 5; 6]%N
+    (build_range_proof 7 [1; 2; 3; 4; 5; 6; 7]%N 3 3) = false.
+Proof. by vm_compute. Qed.
+
+(** the host's listing comes with a verifying proof against the committed root *)
+Theorem listing_verifies h off len lk pr sg u h' o :
+  committed_ok h → do_roots h off len lk pr sg u = Some (h', o) →
+  ∃ rs, o = ORootsResp rs ∧
+    verify_range (r_root (h_rev h)) (N.to_nat (r_size (h_rev h) / sector_size)) off len rs
+      (build_range_proof (length (h_roots h)) (h_roots h) off len) = true.
+Proof.
+  intros Hc E. destruct (listing_model _ _ _ _ _ _ _ _ _ Hc E) as (-> & Hl & _).
+  eexists. split; [done|]. rewrite committed_sectors by done.
+  destruct Hc as [<- _]. unfold do_roots in E.
+  repeat (match type of E with
+          | (if ?b then _ else _) = _ => destruct b eqn:?; try done
+          | match ?x with _ => _ end = _ => destruct x eqn:?; try done
+          end; simpl in E).
+  apply listing_complete.
+  - match goal with H : bool_decide (len = 0) = false |- _ => apply bool_decide_eq_false in H end. lia.
+  - match goal with H : negb (bool_decide (off + len ≤ _)) = false |- _ =>
+      apply negb_false_iff, bool_decide_eq_true in H end. done.
+Qed.
